@@ -72,6 +72,39 @@ def hstep (m : LBqm Rat) : HOp Rat → LBqm Rat
 /-- a history from the empty model of vartype `vt` -/
 def hrun (vt : VT) (ops : List (HOp Rat)) : LBqm Rat := ops.foldl hstep { vt, adj := [], off := 0 }
 
+/-- calls issued through the model itself or through a `.spin` / `.binary` view object of vartype `view` (fresh or held across
+    vartype changes: `View.*` falls back to the data's own method when the vartypes coincide) -/
+inductive VOp (R : Type) where
+  | addLinear (v : Label) (b : R)
+  | setLinear (v : Label) (b : R)
+  | addVariable (v : Label) (b : R)
+  | addQuadratic (u v : Label) (b : R)
+  | setQuadratic (u v : Label) (b : R)
+  | removeInteraction (u v : Label)
+  | removeVariable (v : Label)
+  | setOffset (b : R)
+  | relabel (old new : Label)
+  | changeVartype (vt : VT)
+
+open Generated.Vartype in
+/-- one call through an object of vartype `view`; `relabel_variables` and `change_vartype` act on the data -/
+def vstep (m : LBqm Rat) (c : VT × VOp Rat) : LBqm Rat :=
+  let T := viewTables
+  match c.2 with
+  | .addLinear v b => View.addLinear T c.1 m v b
+  | .setLinear v b => match View.setLinear T c.1 m v b with | .ok m' => m' | .error _ => m
+  | .addVariable v b => View.addVariable T c.1 m v b
+  | .addQuadratic u v b => match View.addQuadratic T c.1 m u v b with | .ok m' => m' | .error _ => m
+  | .setQuadratic u v b => (View.setQuadratic T c.1 m u v b).1
+  | .removeInteraction u v => (View.removeInteraction T c.1 m u v).1
+  | .removeVariable v => (View.removeVariable T c.1 m v).1
+  | .setOffset b => match View.setOffset T c.1 m b with | .ok m' => m' | .error _ => m
+  | .relabel old new => m.hstep (.relabel old new)
+  | .changeVartype vt => m.hstep (.changeVartype vt)
+
+/-- a history of calls through the model and its views, from the empty model -/
+def vrun (vt : VT) (calls : List (VT × VOp Rat)) : LBqm Rat := calls.foldl vstep { vt, adj := [], off := 0 }
+
 end LBqm
 
 end En
